@@ -139,7 +139,7 @@ def _coincidence(mg, fx):
     return None
 
 
-def normalisation(ctx, rule='C15-R2'):
+def normalisation(ctx, rule='C15-R2', rule3='C15-R3'):
     fx = effects(ctx)
     p = ctx.project
     f = p.func(Q, rule)
@@ -180,7 +180,7 @@ def normalisation(ctx, rule='C15-R2'):
         trig_ok = cond is not None and T.contains(cond, lambda x: tag(x) == 'cmp' and x[1] == 'ne'
                                                   and ty in (x[2], x[3])
                                                   and T.contains(x, lambda y: tag(y) == 'attr' and y[2] == 'dtype'))
-        ctx.check(same_col and trig_ok, 'C15-R3', Q, e.node, e.loc(),
+        ctx.check(same_col and trig_ok, rule3, Q, e.node, e.loc(),
                   f'dtype fix-up casts {T.show(v, maxlen=100)} under {T.show(cond, maxlen=100) if cond is not None else None}: the '
                   'cast target must be the very dtype that was tested, on the very column that was tested (else a second '
                   'pass warns again)', instance='cast target = tested dtype, same column')
@@ -191,7 +191,7 @@ def normalisation(ctx, rule='C15-R2'):
         axis = dict(c[4]).get('axis')
         ok = cond is not None and tag(cond) == 'not' and tag(cond[1]) == 'cmp' and cond[1][1] == 'in' \
             and cond[1][2] == key and axis in (C(1), C('columns'))
-        ctx.check(ok, 'C15-R3', Q, e.node, e.loc(),
+        ctx.check(ok, rule3, Q, e.node, e.loc(),
                   f'column removal drops {T.show(key)} (axis {T.show(axis)}) under {T.show(cond, maxlen=100) if cond is not None else None}: '
                   'exactly the columns that are not required must be dropped',
                   instance='dropped column = the one tested as not required')
